@@ -13,119 +13,124 @@ evaluation leaves caches and gradients bit-identical, caches equal those of a fr
 graph — PDFRatioProduct of the real SplinedI3EnergySigSetOverBkgPDFRatio (hands out its cache) with a sharing stub ratio,
 in both orders — is driven by the oracles only.
 """
-import ast
 import copy
-import os
 
 import numpy as np
 
-from harness.core import REPO, f2b, flist, parse_flist
+from harness.core import MachineryError, f2b, flist, parse_flist
 
 MODEL_MODULES = ['SkyllhModel.Model.Cache']
 
-RECORDED_VARIANT = (True, True, True)
+RECORDED_VARIANT = (True, True, True, True, True)
+_VARIANT = {}
 
 
 # --------------------------------------------------------------------------------------------------
-# translator part: three facts about the source the proofs are parametric in
+# translator part: five facts about the code the proofs are parametric in.  They are *probed* on the real classes
+# (five tiny histories through public methods — the witnesses of the five findings), not pattern-matched in the source:
+# a behaviour-preserving refactoring (bump moved into a helper) cannot flip them, a conditional reset does.
 
-def _find(tree, cls, func):
-    for node in ast.walk(tree):
-        if isinstance(node, ast.ClassDef) and node.name == cls:
-            for f in node.body:
-                if isinstance(f, ast.FunctionDef) and f.name == func:
-                    return f
-    raise LookupError('%s.%s not found' % (cls, func))
-
-
-def _parse(rel):
-    with open(os.path.join(REPO, rel)) as f:
-        return ast.parse(f.read(), rel)
-
-
-def _is_self_attr(node, name):
-    return isinstance(node, ast.Attribute) and node.attr == name and isinstance(node.value, ast.Name) \
-        and node.value.id == 'self'
-
-
-def _bumps_unconditionally(fn):
-    """a statement `self._trial_data_state_id += <positive literal>` directly in the function body"""
-    for st in fn.body:
-        if isinstance(st, ast.AugAssign) and isinstance(st.op, ast.Add) and _is_self_attr(st.target, '_trial_data_state_id') \
-                and isinstance(st.value, ast.Constant) and isinstance(st.value.value, int) and st.value.value > 0:
-            return True
-    return False
+def _probe_bump():
+    from harness import llh_fixtures as fx
+    from skyllh.core.trialdata import TrialDataManager
+    cfg = fx.make_cfg()
+    srcs = fx.make_sources(1)
+    shg = fx.make_shg_mgr(cfg, srcs)
+    pmm = fx.make_pmm(srcs)
+    tdm = TrialDataManager()
+    ids = [tdm.trial_data_state_id]
+    tdm.initialize_trial(shg_mgr=shg, pmm=pmm, events=fx.make_events(3))
+    ids.append(tdm.trial_data_state_id)
+    tdm.initialize_trial(shg_mgr=shg, pmm=pmm, events=fx.make_events(3))
+    ids.append(tdm.trial_data_state_id)
+    tdm.change_shg_mgr(shg_mgr=shg, pmm=pmm)
+    ids.append(tdm.trial_data_state_id)
+    return all(b > a for a, b in zip(ids, ids[1:]))
 
 
-def extract_variant(ctx=None, with_fields=False):
-    """(bumpAlways, exactHit, resetNsgrad) read from the current source; recorded value on failure."""
+_PROBE_SPEC = dict(K=1, split=False, fields='none', cache=False, interp='linear', scale='mjd')
+
+
+def _probe_exact_hit():
+    cf = _cf()
+    b = cf.base(_PROBE_SPEC)
+    G = cf.build(_PROBE_SPEC, 0, 0)
+    cf.op_evaluate(G, 2.5, [b + 1.03])
+    used = cf.op_evaluate(G, 2.5, [b + 1.13])
+    fresh = cf.op_evaluate(cf.build(_PROBE_SPEC, 0, 0), 2.5, [b + 1.13])
+    return _same(used['grads'], fresh['grads']) and _same(used['llh'], fresh['llh'])
+
+
+def _probe_reset_nsgrad():
+    cf = _cf()
+    G = cf.build(_PROBE_SPEC, 0, 0)
+    cf.op_evaluate(G, 2.5, [cf.base(_PROBE_SPEC) + 1.03])
+    cf.op_reinit_same(G)
+    return cf.op_grad2(G, 2.5) == 'ERR'
+
+
+def _probe_clear_on_eval():
+    cf = _cf()
+    b = cf.base(_PROBE_SPEC)
+    G = cf.build(_PROBE_SPEC, 0, 0)
+    cf.op_evaluate(G, 2.5, [b + 1.03])
+    try:
+        cf.op_evaluate(G, 2.5, [b + 2.95])
+        return True        # nothing failed: the flag is irrelevant
+    except Exception:  # noqa
+        pass
+    return cf.op_grad2(G, 2.5) == 'ERR'
+
+
+def _probe_reset_fields():
+    cf = _cf()
+    T = cf.build_field(0, 0)
+    cf.field_calc(T, 2.0)
+    cf.field_change_source(T, 1)
+    return _same(cf.field_calc(T, 2.0)[0], [float(v) for v in cf.field_value(0, 1, 2.0)])
+
+
+def probe_variant(ctx=None):
+    """(bumpAlways, exactHit, resetNsgrad, clearNsgOnEval, resetFields) observed on the current code."""
+    if 'v' in _VARIANT:
+        return _VARIANT['v']
     out, fallbacks = [], []
-
-    def attempt(i, fn):
+    for i, fn in enumerate((_probe_bump, _probe_exact_hit, _probe_reset_nsgrad, _probe_clear_on_eval, _probe_reset_fields)):
         try:
             out.append(bool(fn()))
         except Exception as e:  # noqa
             out.append(RECORDED_VARIANT[i])
-            fallbacks.append('%d: %s' % (i, e))
-
-    def bump():
-        t = _parse('skyllh/core/trialdata.py')
-        return _bumps_unconditionally(_find(t, 'TrialDataManager', 'initialize_trial')) and \
-            _bumps_unconditionally(_find(t, 'TrialDataManager', 'change_shg_mgr'))
-
-    def exact():
-        fn = _find(_parse('skyllh/core/interpolate.py'), 'Linear1DGridManifoldInterpolationMethod', '_is_cached')
-        return not any(isinstance(n, ast.Attribute) and n.attr in ('isclose', 'allclose') for n in ast.walk(fn))
-
-    def reset():
-        fn = _find(_parse('skyllh/core/llhratio.py'), 'ZeroSigH0SingleDatasetTCLLHRatio', 'initialize_for_new_trial')
-        for n in ast.walk(fn):
-            if isinstance(n, ast.Assign) and any(_is_self_attr(t, '_cache_nsgrad_i') for t in n.targets) \
-                    and isinstance(n.value, ast.Constant) and n.value.value is None:
-                return True
-        return False
-    attempt(0, bump)
-    attempt(1, exact)
-    attempt(2, reset)
-    return_fields = []
-
-    def fields():
-        fn = _find(_parse('skyllh/core/trialdata.py'), 'TrialDataManager', 'initialize_trial')
-        for n in ast.walk(fn):
-            if isinstance(n, ast.Call) and isinstance(n.func, ast.Attribute) and n.func.attr == 'forget_global_fitparam_values':
-                return True
-            if isinstance(n, ast.Assign) and any(isinstance(t, ast.Attribute) and t.attr == '_global_fitparam_value_list'
-                                                 for t in n.targets):
-                return True
-        return False
-    if with_fields:
-        try:
-            return_fields.append(bool(fields()))
-        except Exception as e:  # noqa
-            return_fields.append(True)
-            fallbacks.append('3: %s' % e)
+            fallbacks.append('%s: %s: %s' % (fn.__name__, type(e).__name__, e))
     if fallbacks and ctx is not None:
         ctx.proof['generated_fallbacks'] += fallbacks
-        ctx.note('C06: source facts not extractable, recorded values used: %s' % '; '.join(fallbacks))
-    return tuple(out + return_fields)
+        ctx.note('C06: code facts could not be probed, recorded values used: %s' % '; '.join(fallbacks))
+    _VARIANT['v'] = tuple(out)
+    return _VARIANT['v']
+
+
+def extract_variant(ctx=None, with_fields=False):
+    v = probe_variant(ctx)
+    return v if with_fields else v[:4]
 
 
 def generated(ctx):
-    (a, b, c, d) = extract_variant(ctx, with_fields=True)
+    (a, b, c, e, d) = probe_variant(ctx)
     L = lambda x: 'true' if x else 'false'  # noqa
-    return ('/- GENERATED by harness/props/c06.py from the current skyllh source (ast, no execution). Do not edit. -/\n'
+    return ('/- GENERATED by harness/props/c06.py: facts probed on the current skyllh classes. Do not edit. -/\n'
             'import SkyllhModel.Model.Cache\n'
             'namespace Gen.C06\n'
-            '/-- TrialDataManager.initialize_trial and change_shg_mgr advance _trial_data_state_id unconditionally -/\n'
+            '/-- the trial data state id is strictly larger after every initialize_trial and change_shg_mgr (no data fields) -/\n'
             'def bumpAlways : Bool := %s\n'
-            '/-- Linear1DGridManifoldInterpolationMethod._is_cached does not use numpy.isclose -/\n'
+            '/-- Linear interpolation: an evaluation in the adjacent cell of an MJD-sized grid equals that of fresh objects -/\n'
             'def exactHit : Bool := %s\n'
-            '/-- ZeroSigH0SingleDatasetTCLLHRatio.initialize_for_new_trial clears _cache_nsgrad_i -/\n'
+            '/-- calculate_ns_grad2 right after a re-initialised trial raises RuntimeError -/\n'
             'def resetNsgrad : Bool := %s\n'
-            '/-- TrialDataManager.initialize_trial makes the global-fit-parameter data fields forget their remembered values -/\n'
+            '/-- initialize_trial on the same events array after a source change recomputes a global-fit-parameter field -/\n'
             'def resetFields : Bool := %s\n'
-            'def variant : Cache.Variant := ⟨bumpAlways, exactHit, resetNsgrad⟩\n'
-            'end Gen.C06\n') % (L(a), L(b), L(c), L(d))
+            '/-- calculate_ns_grad2 after a failed evaluate (point outside the grid) raises RuntimeError -/\n'
+            'def clearNsgOnEval : Bool := %s\n'
+            'def variant : Cache.Variant := ⟨bumpAlways, exactHit, resetNsgrad, clearNsgOnEval⟩\n'
+            'end Gen.C06\n') % (L(a), L(b), L(c), L(d), L(e))
 
 
 # --------------------------------------------------------------------------------------------------
@@ -157,6 +162,14 @@ def points(spec):
     pts = {k: b + v for k, v in off.items()}
     pts['n'] = float(gv[11])
     return pts
+
+
+def bad_point(spec):
+    """a parameter value outside the grid of PDFs: evaluate raises (KeyError in PDFSet.get_pdf)"""
+    cf = _cf()
+    if spec.get('graph') == 'i3':
+        return 4.45          # the gamma grid of the I3 energy PDF set is 1.0 … 4.0
+    return cf.base(spec) + 2.95
 
 
 def apply_op(G, op):
@@ -196,20 +209,20 @@ def model_ops(case, ops=None):
 
 
 def run_history(spec, d0, s0, ops, final=None):
-    """Drive a real object graph.  Returns (per-op results, final result); an exception ends the history and is
-    recorded as 'EXC:<type>: <msg>'."""
+    """Drive a real object graph.  Returns (per-op results, final result).  A Python exception of an operation is part
+    of the history: it is recorded as 'EXC:<type>: <msg>' and the history goes on with whatever state the objects were
+    left in.  A failure to *build* the graph is a fixture problem (MachineryError)."""
     cf = _cf()
     res = []
     try:
         G = cf.build(spec, d0, s0)
     except Exception as e:  # noqa
-        return ['EXC:%s: %s' % (type(e).__name__, e)], None
+        raise MachineryError('C06 fixture: cannot build the object graph %r: %s: %s' % (spec, type(e).__name__, e))
     for op in ops:
         try:
             res.append(apply_op(G, op))
         except Exception as e:  # noqa
             res.append('EXC:%s: %s' % (type(e).__name__, str(e)[:120]))
-            return res, None
     fin = None
     if final is not None:
         try:
@@ -218,7 +231,8 @@ def run_history(spec, d0, s0, ops, final=None):
                 fin = {'llh': r['llh'], 'grads': r['grads'], 'ratio': r['ratio'], 'grad': r['grad']}
             elif final[0] == 'eval_grad2':
                 r = cf.op_evaluate(G, final[1], final[2])
-                fin = {'llh': r['llh'], 'grads': r['grads'], 'grad2': cf.op_grad2(G, final[1])}
+                fin = {'llh': r['llh'], 'grads': r['grads'], 'grad2': cf.op_grad2(G, final[1]),
+                       'grad2_multi': cf.op_grad2_multi(G, final[1])}
             elif final[0] == 'grad2raw':
                 fin = {'grad2': cf.op_grad2(G, final[1])}
             elif final[0] == 'maximize':
@@ -249,7 +263,7 @@ def _same(a, b):
     if isinstance(a, float) and isinstance(b, float):
         return f2b(a) == f2b(b) or (a != a and b != b)
     if isinstance(a, str) and isinstance(b, str) and a.startswith('EXC:') and b.startswith('EXC:'):
-        return a.split(':')[1] == b.split(':')[1]
+        return True         # both raised; the exception class / message is incidental
     return a == b
 
 
@@ -268,7 +282,7 @@ def o_fresh_vs_used(ctx, case, used=_NOT_GIVEN):
     """the final query on the used objects == the same query on a freshly built object graph
     (`used`: the result of the final query if the caller has driven the history already)"""
     spec = case['spec']
-    if used is _NOT_GIVEN:
+    if used is _NOT_GIVEN or used is None:
         (_, used) = run_history(spec, case['d0'], case['s0'], case['ops'], case['final'])
     (d, s) = last_state(case)
     ref_ops = []
@@ -280,13 +294,33 @@ def o_fresh_vs_used(ctx, case, used=_NOT_GIVEN):
             elif op[0] == 'E':
                 ref_ops = [op]
     (_, fresh) = run_history(spec, d, s, ref_ops, case['final'])
-    if used is None:
-        return None     # an earlier operation raised: not a statement about the final query
     if not _same(used, fresh):
         return ('%s after the history %s (first trial: data set %d, source set %d) gives %s, but %s on freshly built '
                 'objects holding the same trial data (data set %d, source set %d)%s; configuration %s' % (
                     case['final'], case['ops'], case['d0'], case['s0'], _short(used), _short(fresh), d, s,
                     ' after %s' % ref_ops if ref_ops else '', spec))
+    return None
+
+
+def o_trace_fresh(ctx, case):
+    """every evaluate *inside* the history (not only the final query) == the same evaluate on a freshly built object graph
+    holding the trial data / source of that moment; "raises on the used objects only" is a failure.  (For the grid graph
+    this is what the model trace checks — theorem c06_trace; the I3 graph has no model.)"""
+    spec = case['spec']
+    (res, _) = run_history(spec, case['d0'], case['s0'], case['ops'])
+    d, s = case['d0'], case['s0']
+    for i, (op, r) in enumerate(zip(case['ops'], res)):
+        if op[0] in ('I', 'M'):
+            d = op[1]
+        elif op[0] == 'S':
+            s = op[1]
+        elif op[0] == 'E':
+            (_, fresh) = run_history(spec, d, s, [], ['eval', op[1], op[2]])
+            used = {k: r[k] for k in ('llh', 'grads', 'ratio', 'grad')} if isinstance(r, dict) else r
+            if not _same(used, fresh):
+                return ('operation %d %s of the history %s (first trial: data set %d, source set %d) gives %s, but %s on freshly '
+                        'built objects holding the same trial data (data set %d, source set %d); configuration %s' % (
+                            i, op, case['ops'], case['d0'], case['s0'], _short(used), _short(fresh), d, s, spec))
     return None
 
 
@@ -318,14 +352,14 @@ def _diff_keys(a, b):
 
 
 def o_cache_snapshot(ctx, case):
-    """byte snapshots of the leaf caches (the implementation-side form of the Lean invariant "cache content = pure
-    function of the current data at the cached key"):
-      (1) inputs (spline / grid tables, the tables and per-trial stored arrays of parameter-free factors) are never written;
+    """byte snapshots around evaluations:
+      (1) inputs (spline / grid tables, the tables of parameter-free factors) are never written;
       (2) an evaluate within a trial does not alter the array a parameter-free leaf hands out;
       (3) evaluating the final point a second time returns bit-identical value and gradients and leaves every
-          last-evaluation cache byte-identical;
-      (4) after the final evaluate every last-evaluation cache, and every pd cache entry a fresh object graph holds,
-          is byte-identical to that of the fresh object graph."""
+          last-evaluation cache byte-identical.
+    Diagnostic only (counted, not a verdict — a benign extra or lazily cleared cache entry is legal): (4) the last-evaluation
+    caches and pd cache entries equal those of a freshly built object graph after the same evaluate.
+    Private attributes are read through cache_fixtures._get: a renamed one drops its key (noted in the evidence)."""
     if case['final'][0] not in ('eval', 'eval_grad2'):
         return None
     cf = _cf()
@@ -333,28 +367,32 @@ def o_cache_snapshot(ctx, case):
     (ns, xs) = case['final'][1], case['final'][2]
     try:
         G = cf.build(spec, case['d0'], case['s0'])
-        const0 = cf.const_snapshot(G)
-        for i, op in enumerate(case['ops']):
-            stored = None if G.stub is None or op[0] != 'E' else cf._b(G.stub._stored)
-            _drive(G, [op])
-            if stored is not None and stored != cf._b(G.stub._stored):
-                return ('operation %d %s of the history %s changed the array the parameter-free PDF ratio hands out '
-                        '(a consumer wrote into its input); configuration %s' % (i, op, case['ops'], spec))
-        r1 = cf.op_evaluate(G, ns, xs)
-        snap1 = cf.cache_snapshot(G)
-        pd1 = cf.pd_cache_snapshot(G)
-        r2 = cf.op_evaluate(G, ns, xs)
-        snap2 = cf.cache_snapshot(G)
-        const1 = cf.const_snapshot(G)
-        (d, s) = last_state(case)
-        F = cf.build(spec, d, s)
-        cf.op_evaluate(F, ns, xs)
-        snapf = cf.cache_snapshot(F)
-        pdf_ = cf.pd_cache_snapshot(F)
     except Exception as e:  # noqa
-        return None     # exceptions are the business of fresh_vs_used / cache_onoff
+        raise MachineryError('C06 fixture: cannot build the object graph %r: %s: %s' % (spec, type(e).__name__, e))
+    const0 = cf.const_snapshot(G)
+    for i, op in enumerate(case['ops']):
+        stored = None if G.stub is None or op[0] != 'E' else cf._b(G.stub._stored)
+        try:
+            apply_op(G, op)
+        except Exception:  # noqa  (a raising operation is part of the history)
+            continue
+        if stored is not None and stored != cf._b(G.stub._stored):
+            return ('operation %d %s of the history %s changed the array the parameter-free PDF ratio hands out '
+                    '(a consumer wrote into its input); configuration %s' % (i, op, case['ops'], spec))
+    try:
+        r1 = cf.op_evaluate(G, ns, xs)
+    except Exception:  # noqa  (raised-ness of the final query is judged by fresh_vs_used)
+        return None
+    snap1 = cf.cache_snapshot(G)
+    pd1 = cf.pd_cache_snapshot(G)
     where = 'after the history %s (first trial: data set %d, source set %d); configuration %s' % (
         case['ops'], case['d0'], case['s0'], spec)
+    try:
+        r2 = cf.op_evaluate(G, ns, xs)
+    except Exception as e:  # noqa
+        return 'evaluate(%r, %r) succeeds, the same call again raises %s: %s %s' % (ns, xs, type(e).__name__, e, where)
+    snap2 = cf.cache_snapshot(G)
+    const1 = cf.const_snapshot(G)
     if const0 != const1:
         return 'input tables %s were written to %s' % (_diff_keys(const0, const1)[:4], where)
     strip = lambda r: {k: r[k] for k in ('llh', 'grads', 'ratio', 'grad')}  # noqa
@@ -362,16 +400,21 @@ def o_cache_snapshot(ctx, case):
         return ('evaluate(%r, %r) twice in a row gives %s and then %s %s' % (ns, xs, _short(strip(r1)), _short(strip(r2)), where))
     if snap1 != snap2:
         return ('evaluating (%r, %r) a second time changed the cache(s) %s %s' % (ns, xs, _diff_keys(snap1, snap2), where))
-    if snap1 != snapf:
-        return ('after evaluate(%r, %r) the cache(s) %s differ byte-wise from those of a freshly built object graph holding '
-                'the same trial data (data set %d, source set %d) %s' % (ns, xs, _diff_keys(snap1, snapf), d, s, where))
-    for g, arr in pdf_.items():
-        if g not in pd1:
-            continue
-        a = pd1[g]
-        m = ~np.isnan(arr)
-        if a.shape != arr.shape or a[m].tobytes() != arr[m].tobytes():
-            return ('pd cache of grid point %r differs from the one of a freshly built object graph %s' % (g, where))
+    # ---- (4) diagnostic
+    (d, s) = last_state(case)
+    try:
+        F = cf.build(spec, d, s)
+        cf.op_evaluate(F, ns, xs)
+        snapf = cf.cache_snapshot(F)
+        differs = snap1 != snapf
+        for g, arr in cf.pd_cache_snapshot(F).items():
+            if g in pd1:
+                m = ~np.isnan(arr)
+                differs = differs or pd1[g].shape != arr.shape or pd1[g][m].tobytes() != arr[m].tobytes()
+        if differs:
+            ctx.count('diag: cache content differs from a fresh graph')
+    except Exception:  # noqa
+        pass
     return None
 
 
@@ -399,7 +442,7 @@ def _request(case, variant):
             xs = [float(x) for x in op[2]]
             key = _keys(G, spec, xs)
             qs.append((xs, key))
-            toks.append('E%s|%s' % (flist(xs), flist(key)))
+            toks.append('E%s|%s|%s' % (f2b(op[1]), flist(xs), flist(key)))
         elif op[0] == 'G':
             toks.append('G')
         ds.add((d, s))
@@ -420,11 +463,15 @@ def _request(case, variant):
                 up.setdefault(k_, set()).add(float(b))
                 need |= {k_, float(a), float(b)}
     if any(len(v) != 1 for v in list(up.values()) + list(lo.values())):
-        raise ValueError('grid neighbours are not a function of the grid key: %r %r' % (up, lo))
+        raise MachineryError('C06: grid neighbours are not a function of the grid key (a ParameterGrid matter, property '
+                             'C15): %r %r' % (up, lo))
+    gridpts = set(float(g) for g in cf.grid_values(spec))
+    if any(g == 0.0 or g != g for g in gridpts):
+        raise MachineryError('C06: the grid contains 0.0 or NaN; the model identifies keys by bit pattern')
     man = []
     for (d_, s_) in sorted(ds):
         for k in range(K):
-            for g in sorted(need):
+            for g in sorted(need & gridpts):
                 man.append('%d:%d:%d:%s:%s' % (d_, s_, k, f2b(g), flist(cf.world_man(spec, d_, s_, k, g))))
     bkg = ['%d:%d:%s' % (d_, s_, flist(cf.world_bkg(spec, d_, s_))) for (d_, s_) in sorted(ds)]
     f = spec['fields']
@@ -432,8 +479,9 @@ def _request(case, variant):
                                                   spec['interp'] == 'parabola'))
     vbits = ''.join('1' if b else '0' for b in variant)
     nb = lambda t: ';'.join('%s:%s' % (f2b(k), f2b(next(iter(v)))) for k, v in sorted(t.items())) or '-'  # noqa
-    return 'hist %s %s %s %s %s %s %s %d %d %s' % (vbits, cfgbits, ';'.join(man) or '-', ';'.join(bkg), nb(up), nb(lo),
-                                                   f2b(G.delta), case['d0'], case['s0'], ';'.join(toks) or '-')
+    return 'hist %s %s %s %s %s %s %s %s %d %d %s' % (vbits, cfgbits, ';'.join(man) or '-', ';'.join(bkg), nb(up), nb(lo),
+                                                      f2b(G.delta), flist(sorted(gridpts)), case['d0'], case['s0'],
+                                                      ';'.join(toks) or '-')
 
 
 _GRIDS = {}
@@ -463,33 +511,37 @@ def _blocks(s):
 
 
 def _compare(ctx, case, impl, model_line, stats=None):
-    """property-level relation between the implementation's per-op results and the model's answer line"""
+    """property-level relation between the implementation's per-op results and the model's answer line.
+    Verdict: raised <-> model error; PDF-ratio values and gradients (1e-9 relative); number of spline evaluations never
+    above the uncached number; provenance and value of second derivatives.  Diagnostics only (counted in `stats`):
+    bit-exactness, exact interpolation-hit / spline-evaluation / background-miss counts (a smarter cache is legal)."""
     if model_line in ('bad-op', 'bad-ops'):
-        return 'driver rejected the request: ' + model_line
+        raise MachineryError('C06 driver rejected the request: ' + model_line)
     model = model_line.split(';')
     ops = model_ops(case) + ([['E'] + list(case['final'][1:])] if case['final'] and case['final'][0] == 'eval' else [])
-    last_eval = None     # (d, s, ns, xs) of the last evaluate executed
-    d, s = case['d0'], case['s0']
+    K = case['spec']['K']
     for i, (op, m) in enumerate(zip(ops, model)):
         if i >= len(impl):
             break
         r = impl[i]
-        if isinstance(r, str) and r.startswith('EXC:'):
-            return 'operation %d %s: implementation raised %s, model answers %s' % (i, op, r, m[:80])
-        if op[0] == 'I':
-            d = op[1]
-        elif op[0] == 'S':
-            s = op[1]
+        raised = isinstance(r, str) and r.startswith('EXC:')
         if op[0] in ('I', 'S'):
-            if m != 'U':
-                return 'operation %d %s: model answers %s' % (i, op, m)
+            if raised or m != 'U':
+                return 'operation %d %s: implementation %s, model answers %s' % (i, op, _short(r), m)
         elif op[0] == 'E':
-            last_eval = (d, s, op[1], op[2])
             (m, _, pure) = m.partition('|')
+            if (m == 'XERR') != raised:
+                return ('operation %d %s: implementation %s, model %s' % (
+                    i, op, 'raised ' + r if raised else 'returned values', 'expects an error (point outside the grid)'
+                    if m == 'XERR' else 'returns values'))
+            if stats is not None and raised:
+                stats['failing_evaluates'] = stats.get('failing_evaluates', 0) + 1
+            if raised:
+                continue
             parts = m.split(':')
             pp = pure.split(':')
             if len(pp) == 3 and (pp[1], pp[2]) != (parts[1], parts[2]):
-                # the cached model left its specification: only possible when the source facts are not all true
+                # the cached model left its specification (theorem c06_trace): only possible when a probed fact is false
                 if stats is not None:
                     stats['model_cached_ne_pure'] = stats.get('model_cached_ne_pure', 0) + 1
                 if all(extract_variant()):
@@ -510,27 +562,29 @@ def _compare(ctx, case, impl, model_line, stats=None):
                                     'model %r' % (i, op, name, k, j, u, v))
             if not r['other_zero']:
                 return 'operation %d %s: gradient w.r.t. the parameter of one source is non-zero for events of another' % (i, op)
-            if (r['interp_hit'], r['pd_miss'], r['bkg_miss']) != (parts[3] == '1', int(parts[4]), parts[5] == '1'):
-                return ('operation %d %s: cache behaviour differs: implementation (interpolation hit, spline evaluations, '
-                        'background miss) = %s, model %s' % (i, op, (r['interp_hit'], r['pd_miss'], r['bkg_miss']),
-                                                             (parts[3] == '1', int(parts[4]), parts[5] == '1')))
+            uncached = K * (3 if case['spec']['interp'] == 'parabola' else 2)
+            if r['pd_miss'] is not None and r['pd_miss'] > uncached:
+                return ('operation %d %s: %d spline evaluations, more than the %d of an uncached evaluation' % (
+                    i, op, r['pd_miss'], uncached))
+            if stats is not None and (r['interp_hit'], r['pd_miss'], r['bkg_miss']) != (parts[3] == '1', int(parts[4]), parts[5] == '1'):
+                stats['diag_hit_miss_differs'] = stats.get('diag_hit_miss_differs', 0) + 1
         elif op[0] == 'G':
+            if raised:
+                return 'operation %d %s: implementation raised %s, model answers %s' % (i, op, r, m[:80])
             if m == 'ERR' or r == 'ERR':
                 if m != r:
                     return 'operation %d %s: implementation %s, model %s' % (i, op, _short(r), m)
                 continue
-            # model: "second derivative of the evaluation (d', s', x')"
-            md, ms, mx = m[1:].split(':')
-            if last_eval is None or (int(md), int(ms)) != last_eval[:2] or parse_flist(mx) != [float(x) for x in last_eval[3]]:
-                return 'operation %d %s: model refers to evaluation %s, last evaluation was %s' % (i, op, m, last_eval)
-            # calculate_ns_grad2(ns) uses the ns handed in, the cached per-event gradients of the evaluation
+            # model token: "second derivative of the evaluation (data set, source set, ns, x)" — recompute it on fresh objects
+            md, ms, mns, mx = m[1:].split(':')
             cf = _cf()
             Gf = cf.build(case['spec'], int(md), int(ms))
-            cf.op_evaluate(Gf, last_eval[2], last_eval[3])
+            cf.op_evaluate(Gf, parse_flist(mns)[0], parse_flist(mx))
             want = cf.op_grad2(Gf, op[1])
             if not (isinstance(r, float) and isinstance(want, float) and f2b(r) == f2b(want)):
                 return ('operation %d %s: second derivative %r, but the evaluation the model says it stems from '
-                        '(data set %s, source set %s, %s) gives %r' % (i, op, r, md, ms, last_eval[2:], want))
+                        '(data set %s, source set %s, ns=%r, x=%r) gives %r' % (i, op, r, md, ms, parse_flist(mns)[0],
+                                                                                 parse_flist(mx), want))
     return None
 
 
@@ -624,7 +678,7 @@ def _field_compare(fcase, impl, model_line):
 
 
 def o_field_corr(ctx, fcase):
-    reset = extract_variant(with_fields=True)[3]
+    reset = extract_variant(with_fields=True)[4]
     impl = run_field_history(fcase['d0'], fcase['s0'], list(fcase['ops']) + [['C', fcase['final']]])
     return _field_compare(fcase, impl, ctx.driver('C06', [_field_request(fcase, reset)])[0])
 
@@ -661,7 +715,7 @@ def shrink_field(ctx, fcase):
 
 ORACLES = {'fresh_vs_used': o_fresh_vs_used, 'cache_onoff': o_cache_onoff, 'corr': o_corr,
            'field_fresh_vs_used': o_field_fresh_vs_used, 'field_corr': o_field_corr,
-           'cache_snapshot': o_cache_snapshot}
+           'cache_snapshot': o_cache_snapshot, 'trace_fresh': o_trace_fresh}
 
 
 # --------------------------------------------------------------------------------------------------
@@ -693,6 +747,8 @@ def classify(name, case, res):
         import re
         m = re.search(r'EXC:(\w+)', res)
         mode = 'raises-' + (m.group(1) if m else 'exception')
+    elif name == 'trace_fresh':
+        mode = 'intermediate-evaluate'
     elif name == 'cache_snapshot':
         mode = ('input-written' if ('input tables' in res or 'hands out' in res) else
                 'repeated-evaluation' if ('twice in a row' in res or 'second time' in res) else 'cache-content')
@@ -708,7 +764,9 @@ def classify(name, case, res):
 # --------------------------------------------------------------------------------------------------
 
 def all_specs(split_ok):
-    specs = []
+    specs = [dict(K=3, split=sp, fields=f, cache=c, interp=i, scale='small')
+             for sp in ((False, True) if split_ok else (False,)) for f in ('none', 'all') for c in (False, True)
+             for i in ('linear', 'parabola') if (sp or c)]
     for K in (1, 2):
         for split in ((False, True) if (K == 2 and split_ok) else (False,)):
             for fields in ('none', 'static', 'all'):
@@ -730,9 +788,10 @@ def probe_cases(spec, i):
     split = bool(spec.get('split')) or (spec.get('graph') == 'i3' and K > 1)
     p = [pts['p']] * K
     # per-source parameters: the second point keeps the grid cell of the first source and moves the second source
-    q = [pts['r']] * K if not split else [pts['p2'], pts['r']][:K]
+    q = [pts['r']] * K if not split else [pts['p2']] + [pts['r']] * (K - 1)
     sp = spec if spec.get('graph') == 'i3' else dict(spec, product=[None, 'first', 'second'][i % 3])
-    sp = dict(sp, reuse_fp=(i % 2 == 1))
+    sp = dict(sp, reuse_fp=(i % 2 == 1), dY=(i % 4 >= 2))
+    bad = [bad_point(spec)] * K
     how = ['new', 'replace', 'mutate'][i % 3]
     how2 = ['replace', 'mutate', 'new'][i % 3]
     out = [dict(spec=sp, d0=0, s0=0, ops=[['E', 2.5, p], ['I', 1]], final=['eval', 2.5, p]),
@@ -743,6 +802,11 @@ def probe_cases(spec, i):
         out.append(dict(spec=sp, d0=1, s0=0, ops=[['E', 2.5, p], ['I', 2]], final=['eval', 2.5, p]))
     else:
         out.append(dict(spec=sp, d0=1, s0=0, ops=[['E', 2.5, p], ['M', 0]], final=['eval', 2.5, p]))
+    # error path inside a history: a failing evaluate, then the second derivative / the earlier point again
+    if i % 2 == 0:
+        out.append(dict(spec=sp, d0=0, s0=0, ops=[['E', 2.5, p], ['E', 2.5, bad]], final=['grad2raw', 2.5]))
+    else:
+        out.append(dict(spec=sp, d0=3, s0=0, ops=[['E', 0.7, bad], ['I', 2], ['E', 2.5, p]], final=['eval_grad2', 2.5, q]))
     if i % 3 == 0 or split:
         out.append(dict(spec=sp, d0=2, s0=1, ops=[['E', 2.5, p], ['E', 2.5, q]], final=['eval', 2.5, p]))
         out.append(dict(spec=sp, d0=2, s0=1, ops=[['E', 2.5, p]], final=['eval_grad2', 2.5, q]))
@@ -782,6 +846,10 @@ def gen_case(ctx, spec, maxlen):
     K = spec['K']
 
     def xs():
+        if rng.random() < 0.07:                 # error path: a point outside the grid, the history goes on afterwards
+            ctx.count('failing evaluate generated')
+            v = bad_point(spec)
+            return [v] * K if rng.random() < 0.5 or K == 1 else [pts['p']] * (K - 1) + [v]
         v = pts[rng.choice(names)]
         if K == 2 and spec.get('split') and rng.random() < 0.6:     # per-source values: all equal (40 %), else different
             return [pts[rng.choice(names)] for _ in range(K)]
@@ -791,7 +859,7 @@ def gen_case(ctx, spec, maxlen):
     for _ in range(n):
         r = rng.random()
         if r < 0.16:
-            ops.append(['I', rng.randrange(3)])
+            ops.append(['I', rng.randrange(4)])
         elif r < 0.22:
             ops.append(['R'])
         elif r < 0.28:
@@ -820,8 +888,8 @@ def gen_case(ctx, spec, maxlen):
         ctx.count('final repeats the last evaluated point')
     if spec.get('graph') != 'i3':
         spec = dict(spec, product=rng.choice([None, None, 'first', 'second']))
-    spec = dict(spec, reuse_fp=rng.random() < 0.5)
-    return dict(spec=spec, d0=rng.randrange(3), s0=rng.randrange(2), ops=ops, final=final)
+    spec = dict(spec, reuse_fp=rng.random() < 0.5, dY=rng.random() < 0.4)
+    return dict(spec=spec, d0=rng.randrange(4), s0=rng.randrange(2), ops=ops, final=final)
 
 
 def _split_supported():
@@ -916,8 +984,10 @@ def run(ctx):
             ctx.count('op:' + op[0] + (':' + '/'.join(op[2:4]) if op[0] == 'S' and len(op) >= 4 else ''))
         ctx.count('final:' + c['final'][0])
     for ci, (case, is_w) in enumerate(cases + [(c, False) for c in i3_cases]):
-        for name in ('fresh_vs_used', 'cache_onoff', 'cache_snapshot'):
+        for name in ('fresh_vs_used', 'cache_onoff', 'cache_snapshot', 'trace_fresh'):
             if name == 'cache_onoff' and (case['spec'].get('graph') == 'i3' or not (is_w or ctx.rng.random() < 0.35)):
+                continue
+            if name == 'trace_fresh' and (case['spec'].get('graph') != 'i3' or not any(op[0] == 'E' for op in case['ops'])):
                 continue
             ctx.count('oracle:' + name)
             if name == 'fresh_vs_used' and ci in used_final:
@@ -964,7 +1034,7 @@ def run(ctx):
                           impl_output=_short(impl), model_output=m[:300], signature='C06/corr/' + _corr_mode(d),
                           no_failing_input=True)
     # ---- data fields depending on global fit parameters (TrialDataManager level)
-    reset = extract_variant(ctx, with_fields=True)[3]
+    reset = extract_variant(ctx, with_fields=True)[4]
     ctx.extra['source_facts']['resetFields'] = reset
     fcases = [dict(d0=0, s0=0, ops=[['C', 2.0], ['S', 1]], final=2.0)]
     fcases += [gen_field_case(ctx, maxlen + 1) for _ in range(ctx.n(60, 1500))]
@@ -991,6 +1061,11 @@ def run(ctx):
     ctx.extra['floats_compared'] = stats['floats']
     ctx.extra['floats_bit_exact'] = stats['bit_exact']
     ctx.extra['model_cached_ne_pure'] = stats.get('model_cached_ne_pure', 0)
+    ctx.extra['failing_evaluates_compared'] = stats.get('failing_evaluates', 0)
+    ctx.extra['diag_hit_miss_count_differs'] = stats.get('diag_hit_miss_differs', 0)
+    if _cf().MISSING:
+        ctx.note('C06: private attributes the byte snapshots wanted to read no longer exist (keys dropped): %s'
+                 % ', '.join(sorted(_cf().MISSING)))
 
 
 def _neighbourhood(case):
